@@ -606,6 +606,32 @@ def r5_statistics(ctx):
                 and any(w_ for w_ in writes
                         if norm(s_.targets[0]) in norm(w_)):
             row0 = s_
+    if row0 is None and len(writes) == 1 and writes[0].args:
+        # the row text is built in place: follow the written expression
+        # through the loop body's single assignments to the comprehension
+        local = {}
+        for s_ in lp.body:
+            if isinstance(s_, ast.Assign) and len(s_.targets) == 1 and \
+                    isinstance(s_.targets[0], ast.Name):
+                local.setdefault(s_.targets[0].id, []).append(s_)
+        todo, seen_ = [writes[0].args[0]], set()
+        while todo and row0 is None:
+            e_ = todo.pop()
+            for n_ in ast.walk(e_):
+                if isinstance(n_, ast.ListComp) and len(
+                        n_.generators) == 1 and not isinstance(
+                        e_, ast.ListComp):
+                    row0 = ast.copy_location(ast.Assign(
+                        targets=[ast.Name(id="<row>", ctx=ast.Store())],
+                        value=n_), n_)
+                    break
+                if isinstance(n_, ast.Name) and n_.id in local and len(
+                        local[n_.id]) == 1 and n_.id not in seen_:
+                    seen_.add(n_.id)
+                    if isinstance(local[n_.id][0].value, ast.ListComp):
+                        row0 = local[n_.id][0]
+                        break
+                    todo.append(local[n_.id][0].value)
     if row0 is None:
         raise Undecided("fit_perform: the statistics row is not a list "
                         "comprehension over the column table")
@@ -681,7 +707,7 @@ def r5_statistics(ctx):
     # the row is built from the current curve
     w = writes[0] if writes else None
     if w is not None:
-        row = None
+        row = row0.value if rowvar == "<row>" else None
         for s in lp.body:
             if isinstance(s, ast.Assign) and norm(s.targets[0]) == rowvar:
                 row = s.value
@@ -719,6 +745,10 @@ def r5_statistics(ctx):
                 md = c.args[0]
             mode = const_str(md) if md is not None else "r"
             opens.append((c, norm(c.func.value), mode))
+        elif isinstance(c.func, ast.Attribute) and c.func.attr in (
+                "write_text", "write_bytes"):
+            # Path.write_text creates or truncates the file
+            opens.append((c, norm(c.func.value), "w"))
     tsv = [o for o in opens if any(
         isinstance(p_, ast.withitem) and norm(p_.optional_vars or p_) == "ts"
         for p_ in _parents(o[0], fp_))] if opens else []
